@@ -32,6 +32,8 @@
 // about 50x or more below that -- otherwise the case fails with C08/runaway-operation instead of hanging for minutes.
 #include "C08_huge.hpp"
 
+#include <ctime>
+
 namespace c08h {
 Budget g_budget;
 [[noreturn]] void runaway() {
@@ -180,11 +182,11 @@ std::vector<uint64_t> huge_ranks(const HugeShape& sh, const Model& mo) {
     for (int c = 0; c < 64; ++c)
         if (mo.T[c] && mo.P[c] > 0) starts.push_back(mo.P[c]);
     if (sh.ncls == NC_MANY) {
-        // a call costs O(m log m) here: small sample
+        // a call costs O(m log m) here (about 3 * 10^6 counted operations): at most ~24 ranks
         add(0, 0), add(1, 0), add(N, 0), add(N - 1, 0);
         add(P16, 1), add((uint64_t)sh.m, 1);
-        for (uint64_t b : starts) add(b, 1);
-        for (int k = 0; k < 10; ++k) r.push_back(splitmix(s) % (N + 1));
+        for (int k = 0; k < 3 && !starts.empty(); ++k) add(starts[splitmix(s) % starts.size()], 1);
+        for (int k = 0; k < 5; ++k) r.push_back(splitmix(s) % (N + 1));
     } else {
         std::vector<ptrdiff_t> lens, rs;
         for (uint64_t l : mo.lens) lens.push_back((ptrdiff_t)l);
@@ -227,6 +229,7 @@ std::vector<uint64_t> huge_ranks(const HugeShape& sh, const Model& mo) {
 }
 
 void run_huge(pbt::Source& src, bool dp, bool ds) {
+    const clock_t dev_t0 = clock(); // only reported by the C08_HUGE_STATS development aid
     g_budget = Budget();
     HugeShape sh = gen_huge(src);
     Model mo(sh);
@@ -293,7 +296,7 @@ void run_huge(pbt::Source& src, bool dp, bool ds) {
     if (const char* e = getenv("C08_HUGE_STATS")) { // development aid: append the budget headroom of every case to the named file
         if (FILE* f = fopen(e, "a")) {
             uint64_t limit = work_limit(m, sh.nmax);
-            fprintf(f, "m=%d nmax=%llu D=%d ranks=%zu max_used=%llu limit=%llu headroom=%.1f\n", m, (unsigned long long)sh.nmax, sh.D, st.ranks_checked,
+            fprintf(f, "cpu_ms=%ld m=%d nmax=%llu D=%d ranks=%zu max_used=%llu limit=%llu headroom=%.1f\n", (long)((clock() - dev_t0) * 1000 / CLOCKS_PER_SEC), m, (unsigned long long)sh.nmax, sh.D, st.ranks_checked,
                     (unsigned long long)g_budget.max_used, (unsigned long long)limit, (double)limit / (double)std::max<uint64_t>(1, g_budget.max_used));
             fclose(f);
         }
